@@ -19,6 +19,12 @@ ASSUMPTIONS = ['A1 O_CREAT|O_EXCL is exclusive (also on NFSv3+)',
 MINIMUM = {'R04.1': 2, 'R04.2': 1, 'R04.3': 1, 'R04.4': 1, 'R04.5': 1, 'R04.6': 1}
 
 
+# rules of sibling properties that are necessary conditions of this one too
+# (evaluated by the sibling module on the same graphs, reported under this property)
+ALSO = {'C01': {'R01.6': 'closed effect set of trash-put'},
+ 'C17': {'R17.5': 'a failing attempt deletes nothing but its own reservation (not directories '
+                  'another trash-put is using)'}}
+
 def check(ctx):
     r = PutRoles(ctx)
     b, g = r.b, r.g
